@@ -153,6 +153,13 @@ func c12Step(w *World, h *HistRun, i int) (fs []Finding) {
 	if st.Resp.Panic != "" {
 		fs = append(fs, Finding{"handler-panic", fmt.Sprintf("step %d %s: panic escaped the router: %s", i, st.Op, oneLine(st.Resp.Panic, 200))})
 	}
+	if i == len(h.Steps)-1 {
+		for _, c := range h.ReentrantCodes {
+			if c != 200 {
+				fs = append(fs, Finding{"update-from-notification-handler", fmt.Sprintf("step %d %s: the consumer answered the notification by an update of its session, which was answered %d", i, st.Op, c)})
+			}
+		}
+	}
 	return
 }
 
@@ -270,7 +277,7 @@ func init() {
 			Supis: []string{supiA, supiB}, MaxDepth: depth, Alphabet: c12Alphabet(rep.Tier)}
 		RunBFS(pool, sp, rep, &st)
 		// consumers answering the notification with 400 / 404 / 500 / 200 without body: still exactly one notification
-		for _, host := range []string{"smf-400", "smf-404", "smf-500", "smf-200"} {
+		for _, host := range []string{"smf-400", "smf-404", "smf-500", "smf-200", "smf-reentrant"} {
 			cr := mkCreate(0, "smf1")
 			cr.Notify, cr.Seq = "http://"+host+".example/notify", 3
 			sp2 := BFSSpec{Name: "notify-answered-by-" + host, Check: "C12", Oracle: "C12", Cfg: sp.Cfg, Supis: sp.Supis, Prefix: []Op{cr}, MaxDepth: 2,
